@@ -54,6 +54,12 @@ def mk_rows(ctx, cls, n, prefix="r"):
                 r[k] = NICE[k]
             elif k == "keysounds":
                 r[k] = ["k%d" % i]
+            elif isinstance(dflt, bool):  # every other field gets a value that is not the item constructor's default
+                r[k] = not dflt
+            elif isinstance(dflt, int):
+                r[k] = dflt + 1 + i
+            elif isinstance(dflt, str):
+                r[k] = dflt + "v%d" % i
             else:
                 r[k] = dflt
         out.append(r)
@@ -262,6 +268,29 @@ def ob_history(clsname, n, how, history, ctx):
     observers(ctx, tl, rows, cls)
 
 
+def ob_after_other_class(clsname, first, ctx):
+    """class-level state: lists of a related class (base classes, or a sibling game's class) are built, indexed and iterated first;
+    the list under test must still behave as the sequence of its own rows"""
+    import inspect
+
+    cls = list_class(clsname)
+    known = {c.__name__: c for c in all_list_classes() if not inspect.isabstract(c)}
+    if first == "bases":
+        others = [b for b in cls.__mro__[1:] if b.__name__ in known and known[b.__name__] is b]
+    else:
+        others = [known[first]]
+    for k, other in enumerate(reversed(others)):
+        rows_o = mk_rows(ctx, other, 1, prefix="o%d_" % k)
+        tlo = mk_list(other, rows_o, "items")
+        its = list(tlo)
+        names_o = list(declared(other))
+        ctx.check("earlier-list%d(%s).iter.values" % (k, other.__name__), len(its) == 1 and ctx.all(*[cell_same(ctx, getattr(its[0], n_), rows_o[0][n_]) for n_ in names_o]))
+        tlo[0]
+    rows = mk_rows(ctx, cls, 2)
+    tl = mk_list(cls, rows, "items")
+    observers(ctx, tl, rows, cls)
+
+
 def ob_declared(clsname, ctx):
     """lists built from nothing / a dict / items / empty(n) have exactly the declared fields and defaults."""
     cls = list_class(clsname)
@@ -377,6 +406,14 @@ def obligations(tier, seed):
         obs.append(Obligation("C16/op/%s/n0/observers" % cn, partial(ob_history, cn, 0, "items", []), bound="%s empty, all observers" % cn))
         obs.append(Obligation("C16/op/%s/n2/build-df" % cn, partial(ob_history, cn, 2, "df", [("sorted", None)]), bound="%s built from a DataFrame" % cn))
         obs.append(Obligation("C16/op/%s/n2/build-dict" % cn, partial(ob_history, cn, 2, "dict", [("after", True)]), bound="%s built by from_dict" % cn))
+    for cn in names:
+        cls = list_class(cn)
+        firsts = ["bases"] + [o for o in ("OsuHitList", "QuaHoldList", "SMBpmList") if o != cn and (not quick or o == "OsuHitList")]
+        for first in firsts:
+            if first == "bases" and not any(b.__name__ in names for b in cls.__mro__[1:]):
+                continue
+            obs.append(Obligation("C16/after-other-class/%s/first=%s" % (cn, first), partial(ob_after_other_class, cn, first),
+                                  bound="%s (2 rows) observed after lists of %s were built, indexed and iterated in the same interpreter" % (cn, "its non-abstract base classes" if first == "bases" else first)))
     pair_classes = ["TimedList", "OsuHoldList"] if quick else ["TimedList", "HoldList", "OsuHoldList", "QuaHitList", "SMBpmList", "BMSHoldList", "O2JHitList", "OsuSvList"]
     for cn in pair_classes:
         cls = list_class(cn)
